@@ -54,7 +54,8 @@ OPTIONS = {
     "disable_float": (["--disable-str-serializable-types", "float"], {"disable": ["float"]}),
     "disable_int_bool": (["--disable-str-serializable-types", "int", "BooleanString"], {"disable": ["int", "BooleanString"]}),
     "preamble": (["--preamble", "  X = 1  # preamble text  "], {"preamble": "  X = 1  # preamble text  "}),
-    "kwargs_meta": (["--code-generator-kwargs", "meta=true"], {"extra": {"meta": True}}),
+    "f_attrs_meta": (["-f", "attrs", "--code-generator-kwargs", "meta=true"], {"fw": "attrs", "extra": {"meta": True}}),
+    "f_dataclasses_meta": (["-f", "dataclasses", "--code-generator-kwargs", "meta=true"], {"fw": "dataclasses", "extra": {"meta": True}}),
 }
 FRAMEWORK_OPTS = [o for o in OPTIONS if o.startswith("f_")]
 ACTUAL = {"int": "IntString", "float": "FloatString", "bool": "BooleanString", "date": "IsoDateString", "time": "IsoTimeString",
@@ -68,8 +69,6 @@ def compatible(opts):
     if len([o for o in opts if o.startswith("s_")]) > 1 or len([o for o in opts if o.startswith("merge_")]) > 1:
         return False
     if len([o for o in opts if o.startswith("max_literals")]) > 1 or len([o for o in opts if o.startswith("disable_")]) > 1:
-        return False
-    if "kwargs_meta" in opts and not any(o in opts for o in ("f_attrs", "f_dataclasses")):
         return False
     return True
 
@@ -121,7 +120,10 @@ def _cases(tier):
         for comp in compositions(n):
             forms = ["list", "wrapped", "wrapped3"] + (["object"] if any(len(p) == 1 for p in comp) else [])
             for form in forms:
-                for argform in ("m_each", "l_each", "glob", "glob_q", "glob_dir", "glob_rec", "two_names", "interleaved", "m_then_l"):
+                for argform in ("m_each", "l_each", "glob", "glob_q", "glob_dir", "glob_rec", "two_names", "interleaved", "m_then_l", "one_file_lookups",
+                                "one_file_lookups_two_names"):
+                    if argform.startswith("one_file") and (form != "list" or len(comp) < 2):
+                        continue
                     if argform in ("glob_q", "glob_dir", "glob_rec") and (form != "list" or fmt != "json"):
                         continue
                     if argform in ("two_names", "interleaved", "m_then_l") and len(comp) < 2:
@@ -180,6 +182,24 @@ def materialise(case, d):
         return argv, [[("Conf", INI_SAMPLES)]]
     samples = SAMPLES[case["s"]]
     ext = {"json": "json", "yaml": "yaml"}[case["fmt"]]
+    if case["arg"].startswith("one_file"):
+        # every part lives in ONE document under its own lookup path; the file is named once per part
+        doc = {f"part{i}": {"items": [samples[j] for j in part]} for i, part in enumerate(case["comp"])}
+        doc["part0"]["whole"] = doc["part0"]["items"][0]
+        with open(os.path.join(d, f"doc.{ext}"), "w", encoding="utf8") as f:
+            f.write(_dump(case["fmt"], doc))
+        argv = [] if case["fmt"] == "json" else ["-i", case["fmt"]]
+        parts = [[samples[j] for j in part] for part in case["comp"]]
+        if case["arg"] == "one_file_lookups":
+            for i in range(len(parts)):
+                argv += ["-m", "Root", f"part{i}.items", f"doc.{ext}"]
+            return argv, [[("Root", [o for p in parts for o in p])]]
+        merged = {}
+        for i, pt in enumerate(parts):
+            nm = "Alpha" if i % 2 == 0 else "Beta"
+            argv += ["-m", nm, f"part{i}.items", f"doc.{ext}"]
+            merged.setdefault(nm, []).extend(pt)
+        return argv, [list(merged.items())]
     files = []   # (filename, lookup, samples in file)
     for i, part in enumerate(case["comp"]):
         objs = [samples[j] for j in part]
